@@ -50,6 +50,15 @@ Lemma fail_ok {A} m (a : A) m' : fail m = (Ok a, m') -> False.
 Proof. discriminate. Qed.
 
 (* reading *)
+Lemma read_exact_take k bs : read_exact k bs = take k bs.
+Proof.
+  revert bs; induction k as [|k IH]; intro bs.
+  - unfold take. cbn. reflexivity.
+  - destruct bs as [|x r]; [reflexivity|]. cbn [read_exact]. rewrite IH. unfold take.
+    cbn [length firstn skipn]. change (S (length r) <? S k)%nat with (length r <? k)%nat.
+    destruct (length r <? k)%nat; reflexivity.
+Qed.
+
 Lemma read_byte_app b r : succeeds (read_byte (b :: r)) (b, r).
 Proof. unfold read_byte. apply succeeds_tick_seq, succeeds_ret. Qed.
 
@@ -67,7 +76,7 @@ Qed.
 Lemma read_of_take c k r x r' : (0 < k)%nat -> take k r = Some (x, r') -> succeeds (read c k r) (x, r').
 Proof.
   intros K T. unfold read. apply succeeds_tick_seq, succeeds_lift.
-  destruct (fix_read c); [exact T | now apply read_short_of_take].
+  destruct (fix_read c); [rewrite read_exact_take; exact T | now apply read_short_of_take].
 Qed.
 
 Lemma read_le_bytes c k n r : (0 < k)%nat -> succeeds (read c k (le_bytes k n ++ r)) (le_bytes k n, r).
@@ -77,7 +86,7 @@ Lemma read_ok c k bs m x r m' :
   fix_read c = true -> read c k bs m = (Ok (x, r), m') -> bs = x ++ r /\ length x = k.
 Proof.
   intros F H. unfold read in H. apply tick_seq_ok in H. apply lift_ok in H as [H _].
-  rewrite F in H. now apply take_spec in H.
+  rewrite F, read_exact_take in H. now apply take_spec in H.
 Qed.
 
 Lemma read_byte_ok bs m b r m' : read_byte bs m = (Ok (b, r), m') -> bs = b :: r.
